@@ -65,14 +65,14 @@ Definition adec_to_sync (d : adecision * option N) : decision * option N :=
   (dec_to_sync (fst d), snd d).
 
 Lemma decide_rel sh cfg req fr cap :
-  async_expressible fr = true ->
+  names_answered sh = true -> async_expressible fr = true ->
   (forall hb r du dg, read_obj 40 req = Some (hb, r) -> cfg_remap cfg = RemapOk du dg ->
      (sh_gate_capacity sh && negb (oversize (parse_hdr hb)) && (cap <? OUT_HDR)) = false /\
      (negb (sh_gate_exempts_forget sh) && oversize (parse_hdr hb) && is_forget (parse_hdr hb)) = false /\
      (sh_write_gate sh && negb (oversize (parse_hdr hb)) && (h_opcode (parse_hdr hb) =? 16) && big_write r) = false) ->
   adec_to_sync (async_decide sh cfg req fr cap) = decide cfg req fr cap.
 Proof.
-  intros Hx Hk. unfold async_decide, decide.
+  intros Hn Hx Hk. unfold async_decide, decide.
   destruct (read_obj 40 req) as [[hb r]|] eqn:E; [|reflexivity].
   destruct (cfg_remap cfg) as [du dg|] eqn:R; [|reflexivity].
   destruct (Hk hb r du dg eq_refl eq_refl) as [Hcap [Hfg Hwr]]. clear Hk.
@@ -89,7 +89,7 @@ Proof.
     + assert (Hw : h_opcode h = 16 -> (sh_write_gate sh && big_write r) = false).
       { intro O. rewrite O in Hwr. cbn [N.eqb Pos.eqb] in Hwr. rewrite andb_true_r in Hwr. exact Hwr. }
       pose proof (async_handler_rel sh cfg h
-                    ((h_uid h + du) mod 4294967296, (h_gid h + dg) mod 4294967296, h_pid h) r fr cap Hx Hw) as A.
+                    ((h_uid h + du) mod 4294967296, (h_gid h + dg) mod 4294967296, h_pid h) r fr cap Hn Hx Hw) as A.
       unfold dec_to_sync in A.
       destruct (async_handler sh cfg h _ r fr cap) as [cs aa].
       destruct (handler cfg h _ r fr cap) as [cs' a'].
@@ -125,11 +125,11 @@ Proof.
 Qed.
 
 Theorem async_handle_gen_eq sh cfg k cap buf0 req fr :
-  async_expressible fr = true -> known_class_gen sh cfg k cap req fr = false ->
+  names_answered sh = true -> async_expressible fr = true -> known_class_gen sh cfg k cap req fr = false ->
   async_handle_gen sh cfg k cap buf0 req fr = handle cfg k cap req fr.
 Proof.
-  intros Hx Hk. destruct (known_false_parts _ _ _ _ _ _ Hk) as [Hp Hu].
-  pose proof (decide_rel sh cfg req fr cap Hx Hp) as D.
+  intros Hn Hx Hk. destruct (known_false_parts _ _ _ _ _ _ Hk) as [Hp Hu].
+  pose proof (decide_rel sh cfg req fr cap Hn Hx Hp) as D.
   unfold async_handle_gen, handle.
   destruct (async_decide sh cfg req fr cap) as [[cs aa] m].
   destruct (decide cfg req fr cap) as [[cs' a'] m'].
@@ -141,7 +141,10 @@ Qed.
 Theorem async_handle_eq cfg k cap buf0 req fr :
   async_expressible fr = true -> known_class cfg k cap req fr = false ->
   async_handle cfg k cap buf0 req fr = handle cfg k cap req fr.
-Proof. intros Hx Hk. apply async_handle_gen_eq; [exact Hx | rewrite known_class_is_code_class; exact Hk]. Qed.
+Proof.
+  intros Hx Hk. apply async_handle_gen_eq; [reflexivity (* names_answered code_shape: both async name decoders answer EINVAL *)
+                                          | exact Hx | rewrite known_class_is_code_class; exact Hk].
+Qed.
 
 (* the code after the three proposed patches: the class is empty and the full statement holds *)
 Lemma known_class_fixed_empty cfg k cap req fr : known_class_gen fixed_shape cfg k cap req fr = false.
@@ -153,7 +156,7 @@ Qed.
 Theorem async_handle_fixed_eq cfg k cap buf0 req fr :
   async_expressible fr = true ->
   async_handle_gen fixed_shape cfg k cap buf0 req fr = handle cfg k cap req fr.
-Proof. intro Hx. apply async_handle_gen_eq; [exact Hx | apply known_class_fixed_empty]. Qed.
+Proof. intro Hx. apply async_handle_gen_eq; [reflexivity | exact Hx | apply known_class_fixed_empty]. Qed.
 
 Definition C20_full_stmt : Prop :=
   forall cfg k cap buf0 req fr, async_expressible fr = true ->
